@@ -31,14 +31,57 @@ identity needing xtext, non-ASCII identity} and data_size in {absent, int}, the 
 judged like an unencodable address (phantom-owed-reply-after-unencodable-mail-parameter/<smtp|lmtp>); a call
 that does not raise must put on the wire SIZE=<n> iff a size was given and SIZE is advertised, AUTH=... iff auth
 was given and AUTH is advertised (AUTH=<> for False); the xtext form of an identity is recorded, not judged.
+
+Coverage audit (every public command method, Reply attributes, failed calls):
+ * starttls() (fake TLS context handing the scripted socket back; wrapped iff its own reply is 220), auth()
+   (PLAIN / LOGIN / CRAM-MD5 / default mechanism, complete and server-aborted exchanges: the 334 challenges are
+   script entries consumed inside the call, the returned Reply must be the final one; without AUTH advertised no
+   command and an error reply), ehlo/helo/lhlo with bytes and str names, the greeting of the other protocol
+   (NotImplementedError, no traces), repeated LHLO, no greeting at all, _flush_pipeline() as the relay calls it,
+   get_reply(command), null sender, transactions abandoned before DATA, 1xx codes, server enhanced status codes.
+ * every populated Reply is compared in full: code, whole text (all lines, in order; with or without the default
+   X.0.0 status the Reply class prepends) and its `command` attribute; no Reply object is returned twice.
+ * unencodable greeting name (str, not ASCII): like an unencodable address -- refusing is fine, leaving a
+   reply owed is reported as phantom-owed-reply-after-unencodable-hello-name/<smtp|lmtp>/<ehlo|helo|lhlo>.
+ * failed calls followed by continued use. badreply: the reply to one command is malformed (garbage line,
+   impossible code, undecodable text, garbage second line): the call that meets it raises BadReply; every other
+   reply object must still pair, the leftover must be exact (mechanisms prefixed after-bad-reply/). eof: the
+   server closes at a byte offset: ConnectionLost there and in the clean-up calls; every reply delivered
+   completely before must be in its object, no object may hold a truncated one (after-connection-lost/).
+   timeout: the caller's gevent.Timeout fires in one read, the reply comes later; the statement does not say
+   what is owed after an abandoned read, so the pairing seen afterwards is RECORDED (recorded/after-timeout/*)
+   and only reading past the last reply is judged (after-timeout/would-block-...).
+ * cuts: the designed script under every single cut of the whole reply stream and every pair of cuts within
+   +-3 bytes of each line end (between whole and bytewise delivery).
 """
 import re
 import random
 import itertools
 
+import base64
+import errno
+
+from gevent import Timeout as GTimeout
+
 from vf.sock import ScriptSocket, WouldBlock
 from slimta.smtp.client import Client, LmtpClient
 from slimta.smtp import BadReply, ConnectionLost
+
+import pysasl
+
+# pysasl re-scans the installed distributions for its mechanisms on every SASLAuth.named() (10 ms per auth()):
+# the scan result cannot change during a run, so the harness memoises it (nothing of slimta is touched)
+_entry_points, _ep_cache = pysasl.entry_points, {}
+
+
+def _cached_entry_points(**kw):
+    key = tuple(sorted(kw.items()))
+    if key not in _ep_cache:
+        _ep_cache[key] = tuple(_entry_points(**kw))
+    return _ep_cache[key]
+
+
+pysasl.entry_points = _cached_entry_points
 
 PROPERTY = 'C10'
 LEVEL = 'exploration'
@@ -49,10 +92,18 @@ LEVEL_TEXT = ('Real Client and LmtpClient driven through generated command seque
               'custom commands, unsolicited replies, failed greetings, missing RSET, non-ASCII addresses with '
               'SMTPUTF8 advertised or not, MAIL auth=/data_size= arguments with AUTH/SIZE advertised or not), and '
               'two designed strata of 1 280 scripts each (non-ASCII addresses; MAIL parameters); each under whole / bytewise / '
-              'per-reply / seeded delivery of the reply stream. Pairing, exact consumption and lock-step judged on '
-              'every run. Held = held on the runs reported.')
-LEVEL_NOTE = ('Trusted: ScriptSocket, ReplyServer (command/content splitter and release rule, 70 lines), the '
-              'marker extraction r<k>x.')
+              'per-reply / seeded delivery of the reply stream. Random sequences also contain starttls(), auth() '
+              '(PLAIN/LOGIN/CRAM-MD5, complete or aborted), bytes/str/unencodable greeting names, repeated greetings, '
+              '_flush_pipeline(), get_reply(command), abandoned transactions. Every eighth random script and a designed '
+              'family carry one fault (a malformed reply to one command x 4 forms x every command of the designed '
+              'script; end of stream at offsets around every reply boundary; a caller Timeout in one read) and '
+              'continue using the client; the designed script also runs under every single cut and boundary pair of '
+              'cuts. Pairing (code, full text, command attribute, object identity), exact consumption and lock-step '
+              'judged on every fault-free run; after a fault as described in the module docstring. '
+              'Held = held on the runs reported.')
+LEVEL_NOTE = ('Trusted: ScriptSocket, ReplyServer (command/content splitter and release rule, 100 lines), the '
+              'marker extraction r<k>x, FakeTlsContext (returns the same socket), the memoised pysasl mechanism scan. '
+              'After a caller Timeout only would-block is judged, the pairing is recorded.')
 TECHNIQUE = ('runtime monitoring: scripted peer with unique reply texts, reply release gated on flushed commands, '
              'would-block detection, exact-leftover oracle')
 RULE = ('case = one command sequence with its reply script (code and 1..3 lines per reply, PIPELINING advertised '
@@ -68,7 +119,10 @@ RULE = ('case = one command sequence with its reply script (code and 1..3 lines 
         'seeded sequences of 1..3 transactions in protocol shape with deviations (8% of addresses non-ASCII, '
         'SMTPUTF8 advertised in 45%). non-trivial & '
         'distinct = distinct script with (an error-class reply before the last command and a multi-line reply) or '
-        'LMTP with mixed recipient acceptance')
+        'LMTP with mixed recipient acceptance. faults: badreply = designed script x every command but the '
+        'greeting x {garbage, code, utf8, midgarbage} x PIPELINING x client class, eof/timeout = designed script '
+        'x offsets {start, +1, +4, middle, end-2, end-1} of every reply; cuts = designed script x (every single '
+        'cut + pairs around line ends), 50 deliveries per case')
 ASSUMPTIONS = ['ScriptSocket hands out exactly the scripted segments',
                'message content is sent only after a 3xx answer to DATA (the caller obeys the protocol); the '
                'script server treats the bytes after such a DATA up to CRLF.CRLF as content',
@@ -77,10 +131,20 @@ ASSUMPTIONS = ['ScriptSocket hands out exactly the scripted segments',
                'follows',
                'the client learns PIPELINING and SMTPUTF8 only from a 250 EHLO/LHLO reply',
                'a non-ASCII address without SMTPUTF8 in effect is refused by the client (UnicodeEncodeError); a '
-               'client that sent something instead makes the run inconclusive, not violated']
+               'client that sent something instead makes the run inconclusive, not violated',
+               'a malformed reply counts as the (one) reply to its command; in the transaction that met it and the '
+               'next one the scripts answer DATA with 5xx and reset (a caller whose call failed cannot know the '
+               'server is in content mode)',
+               'after the end of stream the caller only makes clean-up calls (rset/custom/quit)',
+               'auth() whose initial pipeline drain met the scripted fault is simply called again',
+               'AUTH is issued only when the last 250 greeting advertised AUTH; otherwise auth() sends nothing',
+               'STARTTLS is answered 220 only between transactions and is then followed by a new greeting']
 REQUIRED_HITS = ['reply-paired', 'tail-compared', 'pipelined-batch', 'lockstep-checked',
                  'lmtp-data-replies-paired', 'unencodable-address-refused', 'utf8-address-sent-as-utf8',
-                 'unencodable-mail-parameter-refused', 'mail-parameters-compared']
+                 'unencodable-mail-parameter-refused', 'mail-parameters-compared',
+                 'reply-text-compared', 'command-attribute-compared', 'starttls-paired', 'starttls-decision-compared',
+                 'auth-exchange-paired', 'unencodable-hello-name-refused', 'bad-reply-continued',
+                 'connection-lost-continued', 'timeout-continued', 'cut-delivery']
 SHARDS = {'quick': 12, 'thorough': 16}
 BUDGET = {'quick': 60, 'thorough': 900}
 EXHAUSTIVE = {'quick': False, 'thorough': False}
@@ -94,6 +158,8 @@ CONTENTS = [
     (b'.dot first\r\nRCPT TO:<fake@x>\r\n', b'QUIT\r\n.\r\n..\r\nDATA\r\nlast line without newline'),
     (b'NOOP\r\n', b'', b'.\r\n'),
     (b'one line, no newline',),
+    (),
+    (b'',),
 ]
 TAIL = b'421 4.4.2 unsolicited tail\r\n'
 MODES = ['whole', 'byte', 'reply', 'rand', 'rand']
@@ -101,12 +167,22 @@ MARK = re.compile(r'r(\d+)x')
 UTF8_SENDERS = ['sénder%d@x.test', 'ユーザー%d@x.test']
 UTF8_RCPTS = ['rçpt%d@x.test', 'r%d@bücher.test', '\U0001F600%d@x.test']
 AUTH_IDS = ['user@x.test', 'us er+=<x>@x.test', '\xfcser@b\xfccher.test']     # plain, needs xtext, non-ASCII
-SYNC_OPS = ('banner', 'ehlo', 'lhlo', 'helo', 'data', 'rset', 'quit', 'custom', 'get_reply')
+SYNC_OPS = ('banner', 'ehlo', 'lhlo', 'helo', 'data', 'rset', 'quit', 'custom', 'get_reply', 'starttls', 'auth',
+            'flush')
+HELLO_NAMES_UTF8 = ['b\xfccher.test', '\u30e1\u30fc\u30eb.test']
+AUTH_STEPS = {'PLAIN': 0, 'LOGIN': 2, 'CRAM-MD5': 1}      # 334 challenges of a complete exchange
+AUTH_FINAL = ['235', '235', '535', '454', '504', '535']
+BAD_FORMS = ('garbage', 'code', 'utf8', 'midgarbage')
+# what Reply.command must say for each client method (observe_at: "(command, code, text) of every Reply object")
+CMD_ATTR = {'banner': b'[BANNER]', 'ehlo': b'EHLO', 'lhlo': b'LHLO', 'helo': b'HELO', 'mail': b'MAIL',
+            'rcpt': b'RCPT', 'data': b'DATA', 'rset': b'RSET', 'quit': b'QUIT', 'send_data': b'[SEND_DATA]',
+            'send_empty_data': b'[SEND_DATA]', 'starttls': b'STARTTLS', 'auth': b'AUTH', 'get_reply': b'[TIMEOUT]'}
 
 
 # ------------------------------------------------------------------ generators
-def op(name, code, nl=1, arg=None, adv=False, codes=None, utf8=False, ext=(), auth=None, size=None):
+def op(name, code, nl=1, arg=None, adv=False, codes=None, utf8=False, ext=(), auth=None, size=None, **extra):
     d = {'op': name, 'code': code, 'nl': nl}
+    d.update((k, v) for k, v in extra.items() if v is not None and v is not False)
     if arg is not None:
         d['arg'] = arg
     if name in ('ehlo', 'lhlo'):
@@ -202,10 +278,13 @@ def gen_mailparams(seed):
                             yield {'kind': 'mailp', 'lmtp': lmtp, 'ops': ops, 'rs': seed}
 
 
-def gen_random(rnd):
+def gen_random(rnd, plain_data=False):
+    """plain_data: no DATA is answered 3xx (fault strata in which the caller cannot know where it stands)."""
     lmtp = rnd.random() < 0.45
     adv = rnd.random() < 0.6
     utf8 = rnd.random() < 0.45
+    esc = rnd.random() < 0.3             # this server puts enhanced status codes on its replies
+    hello_op = 'lhlo' if lmtp else 'ehlo'
 
     def ext():
         return tuple(x for x in ('AUTH', 'SIZE') if rnd.random() < 0.5)
@@ -215,77 +294,256 @@ def gen_random(rnd):
                 'size': rnd.choice((0, 512, 10 ** 9)) if rnd.random() < 0.3 else None}
 
     def sender(t):
+        if rnd.random() < 0.04:
+            return ''                    # null reverse-path
         return (rnd.choice(UTF8_SENDERS) if rnd.random() < 0.08 else 's%d@x.test') % t
 
     def rcpt(n):
         return (rnd.choice(UTF8_RCPTS) if rnd.random() < 0.08 else 'r%d@x.test') % n
 
     def cls(weights):
+        if rnd.random() < 0.01:
+            return '150'                 # a preliminary code: neither acceptance nor error
         return rnd.choice(CODES[rnd.choices((2, 3, 4, 5), weights)[0]])
 
     def nl():
         return rnd.choice((1, 1, 2, 3))
-    ops = [op('banner', cls((90, 0, 5, 5)), nl())]
+
+    def e():
+        return esc and rnd.random() < 0.7
+
+    def hello(name, code, arg='me.test', **kw):
+        out = []
+        if rnd.random() < 0.04:          # the caller first tries a name that cannot be encoded
+            out.append(op(name, '250', 1, arg=rnd.choice(HELLO_NAMES_UTF8)))
+        if rnd.random() < 0.02:          # ... or the greeting of the other protocol
+            out.append(op('wrong_hello', '250', 1, arg=arg))
+        out.append(op(name, code, nl(), arg=arg, bytes=rnd.random() < 0.3, esc=e(), **kw))
+        return out
+
+    def interlude(in_tx):
+        """What a caller may put between (or, deviating, inside) transactions."""
+        r = rnd.random()
+        if r < 0.5:
+            return [op('custom', cls((70, 10, 10, 10)), nl(), arg=rnd.choice(['NOOP', 'VRFY x', 'HELP', 'noop']),
+                       esc=e())]
+        if r < 0.7:
+            # a server that answers 220 forgets the transaction: inside one the scripts only refuse STARTTLS
+            code = rnd.choice(['503', '454', '501']) if in_tx or rnd.random() < 0.3 else '220'
+            out = [op('starttls', code, nl(), esc=e())]
+            if code == '220' or rnd.random() < 0.3:
+                out += hello(hello_op, '250', arg='tls.test', adv=rnd.random() < 0.6, utf8=rnd.random() < 0.5,
+                             ext=ext())
+            return out if not in_tx else out[:1]
+        if r < 0.9:
+            mech = rnd.choice((None, 'PLAIN', 'LOGIN', 'CRAM-MD5'))
+            steps = AUTH_STEPS[mech or 'PLAIN']
+            return [op('auth', rnd.choice(AUTH_FINAL), nl(), mech=mech, esc=e(), authz=rnd.random() < 0.3,
+                       chal=steps if rnd.random() < 0.8 else rnd.randint(0, steps))]
+        if rnd.random() < 0.5:
+            return [op('flush', '250', 1)]
+        return [op('get_reply', cls((30, 0, 60, 10)), nl(), esc=e(), label=rnd.choice((None, 'IDLE')))]
+
+    ops = [op('encrypt', '220', 1)] if rnd.random() < 0.04 else []
+    ops.append(op('banner', cls((90, 0, 5, 5)), nl(), esc=e()))
     hello_code = rnd.choices(['250', rnd.choice(CODES[2]), cls((0, 0, 50, 50))], (85, 5, 10))[0]
     if lmtp:
         hello_code = '250'
-    ops.append(op('lhlo' if lmtp else 'ehlo', hello_code, nl(), arg='me.test', adv=adv, utf8=utf8, ext=ext()))
-    if not lmtp and hello_code[0] != '2':
-        ops.append(op('helo', cls((90, 0, 5, 5)), nl(), arg='me.test'))
+    if rnd.random() >= 0.03:             # else: the caller skips the greeting altogether
+        ops += hello(hello_op, hello_code, adv=adv, utf8=utf8, ext=ext())
+        if not lmtp and hello_code[0] != '2':
+            ops += hello('helo', cls((90, 0, 5, 5)))
     nr = 0
     for t in range(rnd.choice((1, 1, 2, 3))):
-        if rnd.random() < 0.2:
-            ops.append(op('custom', cls((70, 10, 10, 10)), nl(), arg=rnd.choice(['NOOP', 'VRFY x', 'HELP'])))
+        if rnd.random() < 0.3:
+            ops += interlude(False)
         if rnd.random() < 0.06:
-            ops.append(op('get_reply', cls((30, 0, 60, 10)), nl()))
-        if not lmtp and rnd.random() < 0.05:
-            ops.append(op('ehlo', '250', nl(), arg='again.test', adv=rnd.random() < 0.5,
-                          utf8=rnd.random() < 0.5, ext=ext()))
-        ops.append(op('mail', cls((70, 4, 13, 13)), nl(), arg=sender(t), **mailkw()))
+            ops += hello(hello_op, '250', arg='again.test', adv=rnd.random() < 0.5, utf8=rnd.random() < 0.5,
+                         ext=ext())
+        ops.append(op('mail', cls((70, 4, 13, 13)), nl(), arg=sender(t), esc=e(), **mailkw()))
         for i in range(rnd.choice((0, 1, 1, 2, 2, 3, 4))):
-            ops.append(op('rcpt', cls((55, 5, 20, 20)), nl(), arg=rcpt(nr)))
+            ops.append(op('rcpt', cls((55, 5, 20, 20)), nl(), arg=rcpt(nr), esc=e()))
             nr += 1
-            if rnd.random() < 0.05:
-                ops.append(op('custom', cls((70, 10, 10, 10)), nl(), arg='NOOP'))
+            if rnd.random() < 0.07:
+                ops += interlude(True)
+        if rnd.random() < 0.06:          # the caller abandons the transaction before DATA
+            ops.append(op('rset', '250' if lmtp else cls((70, 10, 10, 10)), nl(), esc=e()))
+            continue
         dcode = cls((8, 62, 15, 15))
-        ops.append(op('data', dcode, nl()))
+        if plain_data and dcode[0] == '3':
+            dcode = '554'
+        ops.append(op('data', dcode, nl(), esc=e()))
         if dcode[0] == '3':
             codes = [cls((50, 6, 22, 22)) for _ in range(5)]
             ops.append(op('send_empty_data' if rnd.random() < 0.25 else 'send_data', codes[0], nl(),
-                          arg=rnd.randrange(len(CONTENTS)), codes=codes))
+                          arg=rnd.randrange(len(CONTENTS)), codes=codes, esc=e()))
             if rnd.random() < 0.15:
-                ops.append(op('rset', '250' if lmtp else cls((70, 10, 10, 10)), nl()))
+                ops.append(op('flush', '250', 1))
+            if rnd.random() < 0.15:
+                ops.append(op('rset', '250' if lmtp else cls((70, 10, 10, 10)), nl(), esc=e()))
         elif rnd.random() < 0.8:
-            ops.append(op('rset', '250' if lmtp else cls((70, 10, 10, 10)), nl()))
+            ops.append(op('rset', '250' if lmtp else cls((70, 10, 10, 10)), nl(), esc=e()))
         # else: deviation -- the caller starts the next transaction without RSET
-    ops.append(op('quit', cls((80, 0, 10, 10)), nl()))
+    ops.append(op('quit', cls((80, 0, 10, 10)), nl(), esc=e()))
     return {'kind': 'rand', 'lmtp': lmtp, 'ops': ops, 'rs': rnd.randrange(1 << 30)}
+
+
+def refuse_data(ops, start, lmtp=False):
+    """From op `start` to the end of the transaction after its own no DATA is answered 3xx and no content is
+    sent: a caller whose call failed cannot know that the server went into content mode (under PIPELINING the
+    failure may only surface in the next transaction's DATA), so the scripts do not go there. LMTP: the client
+    forgets recipients on RSET only (known finding when it is omitted), so these transactions are always reset."""
+    i, mails = start, 0
+    while i < len(ops):
+        if i > start and ops[i]['op'] == 'mail':
+            mails += 1
+            if mails == 2:
+                break
+        if ops[i]['op'] == 'data':
+            if ops[i]['code'][0] == '3':
+                ops[i]['code'] = '554'
+            if lmtp and ops[i + 1]['op'] not in ('rset', 'send_data', 'send_empty_data'):
+                ops.insert(i + 1, op('rset', '250', 1))
+        elif ops[i]['op'] in ('send_data', 'send_empty_data') and i > start:
+            ops[i] = op('rset', '250', ops[i]['nl'])
+        i += 1
+
+
+def bad_eligible(case):
+    out = []
+    for i, o in enumerate(case['ops']):
+        if o['op'] in ('mail', 'rcpt', 'data', 'custom', 'quit', 'get_reply', 'starttls', 'send_data',
+                       'send_empty_data') or (o['op'] == 'rset' and not case['lmtp']):
+            if o['op'] in ('mail', 'rcpt') and not o['arg'].isascii():
+                continue
+            out.append(i)
+    return out
+
+
+def with_bad_reply(case, i, form):
+    o = case['ops'][i]
+    if o['op'] not in ('send_data', 'send_empty_data'):
+        o['code'] = '550'        # for the script's state the command was not accepted
+    refuse_data(case['ops'], i, case['lmtp'])
+    case['fault'] = {'type': 'badreply', 'op': i, 'form': form}
+    case['kind'] = 'badreply'
+    return case
+
+
+def designed_script(lmtp, adv, pat, plain_data=False):
+    nls = [1 + (i + pat) % 3 for i in range(16)]
+    ops = [op('banner', '220', nls[0]),
+           op('lhlo' if lmtp else 'ehlo', '250', nls[1], arg='me.test', adv=adv, ext=('AUTH',)),
+           op('custom', '250', nls[2], arg='NOOP'),
+           op('mail', '250', nls[3], arg='s0@x.test'),
+           op('rcpt', '250', nls[4], arg='r0@x.test'),
+           op('rcpt', '550', nls[5], arg='r1@x.test', esc=True),
+           op('data', '554', nls[6]),
+           op('rset', '250', nls[7]),
+           op('get_reply', '250', nls[8]),
+           op('mail', '250', nls[9], arg='s1@x.test'),
+           op('rcpt', '251', nls[10], arg='r2@x.test'),
+           op('data', '554' if plain_data else '354', nls[11]),
+           op('rset', '250', nls[12]) if plain_data else
+           op('send_data', '250', nls[12], arg=pat, codes=['250']),
+           op('quit', '221', nls[13])]
+    return {'kind': 'designed', 'lmtp': lmtp, 'ops': ops, 'rs': 7 + pat}
+
+
+def gen_faults_designed(seed):
+    for lmtp in (False, True):
+        for adv in (True, False):
+            base = designed_script(lmtp, adv, 0)
+            for i in bad_eligible(base):
+                for form in BAD_FORMS:
+                    yield with_bad_reply(designed_script(lmtp, adv, len(form) % 2), i, form)
+            for plain, kind in ((False, 'eof'), (True, 'timeout')):
+                base = designed_script(lmtp, adv, 1, plain)
+                ents = build_plan(base)['entries']
+                offs = sorted(set(x for e in ents for x in (e.start, e.start + 1, e.start + 4,
+                                                            (e.start + e.end) // 2, e.end - 2, e.end - 1)))
+                for off in offs:
+                    case = designed_script(lmtp, adv, 1, plain)
+                    case['fault'] = {'type': kind, 'off': off}
+                    if kind == 'eof' and off % 2:
+                        case['fault']['reset'] = True
+                    case['kind'] = kind
+                    yield case
+
+
+def gen_cuts(seed):
+    """Every single cut of the whole reply stream and every pair of cuts around each line end, for the designed
+    script: the deliveries in between whole and bytewise."""
+    for lmtp in (False, True):
+        for adv in (True, False):
+            base = designed_script(lmtp, adv, 1)
+            plan = build_plan(base)
+            total = plan['total'] + len(TAIL)
+            sets = [[c] for c in range(1, total)]
+            ends = sorted(set(e.start + m.end() for e in plan['entries'] for m in re.finditer(b'\n', e.wire)))
+            for x in ends:
+                for a in range(max(1, x - 2), x + 3):
+                    for b in range(a + 1, min(total, x + 4)):
+                        sets.append([a, b])
+            for j in range(0, len(sets), 50):
+                case = designed_script(lmtp, adv, 1)
+                case['kind'] = 'cuts'
+                case['modes'] = sets[j:j + 50]
+                yield case
+
+
+def gen_random_fault(rnd):
+    kind = rnd.choice(('badreply', 'badreply', 'eof', 'timeout'))
+    case = gen_random(rnd, plain_data=(kind == 'timeout'))
+    if kind == 'badreply':
+        el = bad_eligible(case)
+        return with_bad_reply(case, rnd.choice(el), rnd.choice(BAD_FORMS))
+    total = build_plan(case)['total']
+    case['fault'] = {'type': kind, 'off': rnd.randrange(total + (1 if kind == 'eof' else 0))}
+    if kind == 'eof' and rnd.random() < 0.4:
+        case['fault']['reset'] = True
+    case['kind'] = kind
+    return case
 
 
 def gen_cases(tier, seed, shard, nshards):
     n = 0
-    for case in itertools.chain(gen_utf8(seed), gen_mailparams(seed), gen_exhaustive(seed)):
+    for case in itertools.chain(gen_faults_designed(seed), gen_cuts(seed), gen_utf8(seed), gen_mailparams(seed),
+                                gen_exhaustive(seed)):
         if n % nshards == shard:
             yield case
         n += 1
     rnd = random.Random('c10-%d-%d' % (seed, shard))
     for i in range(NRANDOM[tier] // nshards):
-        yield gen_random(rnd)
+        yield gen_random_fault(rnd) if i % 8 == 7 else gen_random(rnd)
 
 
 # ------------------------------------------------------------------ the plan: script + expectations
 class Entry(object):
-    __slots__ = ('k', 'need', 'code', 'nl', 'op', 'addr', 'wire', 'hello', 'adv', 'utf8', 'ext')
+    __slots__ = ('k', 'need', 'code', 'nl', 'op', 'addr', 'wire', 'hello', 'adv', 'utf8', 'ext', 'esc', 'text',
+                 'hidden', 'bad', 'opi', 'start', 'end', 'cmd')
 
 
 def make_wire(e):
-    if e.hello and e.code == '250':
+    if e.hidden:                 # a 334 challenge inside auth(): the text must be base64
+        lines = [base64.b64encode(b'<r%dx.challenge@peer.test>' % e.k).decode('ascii')]
+    elif e.hello and e.code == '250':
         lines = ['r%dx hello' % e.k] + (['PIPELINING'] if e.adv else []) + \
                 ['X-EXT%d r%dx' % (j, e.k) for j in range(e.nl - 1)] + ['8BITMIME'] + \
                 (['SMTPUTF8'] if e.utf8 else []) + e.ext
     else:
         who = ' for=<%s>' % e.addr if e.addr else ''
-        lines = ['r%dx %s%s l%d' % (e.k, e.op, who, j) for j in range(e.nl)]
+        esc = '%s.%d.%d ' % (e.code[0], 1 + e.k % 7, e.k % 10) if e.esc and e.code[0] in '245' else ''
+        lines = ['%sr%dx %s%s l%d' % (esc, e.k, e.op, who, j) for j in range(e.nl)]
+    e.text = lines[0] if (e.hello and e.code == '250') else '\r\n'.join(lines)
+    if e.bad == 'garbage':       # one malformed reply where the reply to this command belongs
+        return ('r%dx garbage instead of a reply\r\n' % e.k).encode('ascii')
+    if e.bad == 'code':
+        return ('650 r%dx impossible code\r\n' % e.k).encode('ascii')
+    if e.bad == 'utf8':
+        return ('%s r%dx undecodable ' % (e.code, e.k)).encode('ascii') + b'\xff\xfe\r\n'
+    if e.bad == 'midgarbage':
+        return ('%s-r%dx first line\r\nr%dx garbage second line\r\n' % (e.code, e.k, e.k)).encode('ascii')
     return ''.join('%s%s%s\r\n' % (e.code, '-' if j < len(lines) - 1 else ' ', ln)
                    for j, ln in enumerate(lines)).encode('utf-8')
 
@@ -294,6 +552,7 @@ def build_plan(case):
     """Static reading of the case: script entries in order, for every op the script indexes it must return,
     per command unit whether the client must have read everything before (no pipelining in effect / content)."""
     lmtp = case['lmtp']
+    fault = case.get('fault') or {}
     entries, per_op, verbs, must_sync, content_units, data3, piped = [], [], {}, {}, set(), set(), {}
     units, accepted, adv_eff, flags = 0, [], False, set()
     # non-ASCII addresses: ops the client is expected to refuse (no command, no reply), units whose command line
@@ -304,13 +563,27 @@ def build_plan(case):
     # classification aid only (never part of a verdict): recipients answered 2xx since the last LHLO-250 / RSET /
     # end-of-data, i.e. including those of a transaction the server dropped when it accepted a new MAIL
     unreset, stale_ops = [], {}
+    no_command = {}              # op index -> why the call must not put anything on the wire
 
-    def add(o, code, need, addr=None, hello=False):
+    def add(o, code, need, addr=None, hello=False, hidden=False):
         e = Entry()
-        e.k, e.need, e.code, e.nl, e.op, e.addr = len(entries), need, code, o['nl'], o['op'], addr
-        e.hello, e.adv, e.utf8 = hello, bool(o.get('adv')), bool(o.get('utf8'))
-        e.ext = (['AUTH PLAIN LOGIN'] if o.get('auth_adv') else []) + (['SIZE 10485760'] if o.get('size_adv') else [])
+        e.k, e.need, e.code, e.nl, e.op, e.addr = len(entries), need, code, (1 if hidden else o['nl']), o['op'], addr
+        e.hello, e.adv, e.utf8, e.esc, e.hidden = hello, bool(o.get('adv')), bool(o.get('utf8')), bool(o.get('esc')), hidden
+        e.ext = (['AUTH PLAIN LOGIN CRAM-MD5'] if o.get('auth_adv') else []) + \
+            (['SIZE 10485760'] if o.get('size_adv') else [])
+        e.opi = len(per_op)
+        e.bad = None
+        if fault.get('type') == 'badreply' and fault['op'] == e.opi and not hidden and \
+                not any(x.opi == e.opi for x in entries):
+            e.bad = fault['form']
+        e.cmd = CMD_ATTR.get(o['op'])
+        if o['op'] == 'custom':
+            e.cmd = o['arg'].split()[0].upper().encode('ascii')
+        elif o['op'] == 'get_reply' and o.get('label'):
+            e.cmd = o['label'].encode('ascii')
         e.wire = make_wire(e)
+        e.start = entries[-1].end if entries else 0
+        e.end = e.start + len(e.wire)
         entries.append(e)
         return e.k
 
@@ -320,6 +593,35 @@ def build_plan(case):
         if name in ('banner', 'get_reply'):
             per_op.append([add(o, code, units)])
             op_unit.append(None)
+            continue
+        if name in ('flush', 'wrong_hello', 'encrypt'):
+            no_command[len(per_op)] = name
+            per_op.append([])
+            op_unit.append(None)
+            continue
+        if name in ('ehlo', 'helo', 'lhlo') and not o['arg'].isascii():
+            refused[len(per_op)] = 'hello-name'
+            per_op.append([])
+            op_unit.append(None)
+            flags.add('unencodable-hello-name')
+            continue
+        if name == 'auth':
+            if not auth_eff:
+                no_command[len(per_op)] = 'auth-not-advertised'
+                per_op.append([])
+                op_unit.append(None)
+                flags.add('auth-without-advertisement')
+                continue
+            ks = []
+            for j in range(o['chal'] + 1):          # lock-step exchange: AUTH line, then one line per challenge
+                units += 1
+                verbs[units] = b'AUTH' if j == 0 else None
+                must_sync[units] = True
+                piped[units] = False
+                ks.append(add(o, '334' if j < o['chal'] else code, units, hidden=j < o['chal']))
+            op_unit.append(units)
+            per_op.append(ks)
+            flags.add('auth-exchange-%d-challenges' % o['chal'])
             continue
         if name in ('mail', 'rcpt') and not o['arg'].isascii():
             if not utf8_eff:
@@ -366,8 +668,8 @@ def build_plan(case):
                 per_op.append([add(o, code, units)])
             continue
         verbs[units] = {'ehlo': b'EHLO', 'lhlo': b'LHLO', 'helo': b'HELO', 'mail': b'MAIL', 'rcpt': b'RCPT',
-                        'data': b'DATA', 'rset': b'RSET', 'quit': b'QUIT'}.get(name) or \
-            o['arg'].split()[0].encode('ascii')
+                        'data': b'DATA', 'rset': b'RSET', 'quit': b'QUIT', 'starttls': b'STARTTLS'}.get(name) or \
+            o['arg'].split()[0].upper().encode('ascii')
         per_op.append([add(o, code, units, hello=name in ('ehlo', 'lhlo'))])
         if name in ('ehlo', 'lhlo') and code == '250':
             adv_eff = bool(o['adv'])
@@ -390,10 +692,15 @@ def build_plan(case):
             data3.add(units)
             if lmtp and accepted and 'rcpt-refused' in flags:
                 flags.add('lmtp-mixed-acceptance')
+        elif name == 'starttls':
+            flags.add('starttls-%s' % ('accepted' if code == '220' else 'refused'))
+            if code == '220':        # RFC 3207 4.2: the clear-text greeting no longer counts (the scripts greet again)
+                adv_eff = utf8_eff = auth_eff = size_eff = False
     return {'entries': entries, 'per_op': per_op, 'verbs': verbs, 'must_sync': must_sync,
             'content_units': content_units, 'data3': data3, 'flags': flags, 'piped': piped,
             'stale_ops': stale_ops, 'refused': refused, 'utf8_units': utf8_units, 'op_unit': op_unit,
-            'mail_units': mail_units, 'utf8_at': utf8_at}
+            'mail_units': mail_units, 'utf8_at': utf8_at, 'no_command': no_command, 'fault': fault,
+            'total': entries[-1].end if entries else 0}
 
 
 # ------------------------------------------------------------------ scripted peer
@@ -416,6 +723,10 @@ class ReplyServer(object):
         self.batches = []            # units completed per sendall
         self.early = []              # units that arrived while earlier replies were still unread
         self.sync_checked = 0
+        self.fault = plan.get('fault') or {}
+        self.fed = 0                 # bytes of the reply stream handed to the socket so far
+        self.fired = None            # 'timeout' | 'eof' once the fault has taken place
+        self.fired_units = None
 
     def need_before(self, unit):
         # bytes of all replies that answer earlier units: what the client must have been handed before
@@ -423,6 +734,8 @@ class ReplyServer(object):
         return sum(len(e.wire) for e in self.entries if e.need < unit)
 
     def on_send(self, ss, data):
+        if self.fired == 'eof' and self.fault.get('reset'):
+            raise OSError(errno.ECONNRESET, 'Connection reset by peer')
         self.buf += data
         done = 0
         while True:
@@ -460,54 +773,115 @@ class ReplyServer(object):
 
     def on_recv(self, ss):
         self.release()
-        if ss.segments or not self.pending:
+        f = self.fault
+        if f.get('type') == 'timeout' and self.fired is None and not ss.segments and self.fed >= f['off']:
+            # the caller's Timeout fires while the client is blocked in this read; the reply comes later
+            self.fired, self.fired_units = 'timeout', self.units
+            raise GTimeout()
+        if ss.segments:
             return
-        if self.mode == 'whole':
-            ss.feed(b''.join(self.pending))
-            self.pending = []
-        elif self.mode == 'reply':
-            ss.feed(self.pending.pop(0))
+        if f.get('type') == 'eof' and self.fed >= f['off']:
+            # the server has gone: everything up to the offset was delivered, this read finds the end of stream
+            if self.fired is None:
+                self.fired, self.fired_units = 'eof', self.units
+            if f.get('reset'):       # the connection is reset rather than closed
+                raise OSError(errno.ECONNRESET, 'Connection reset by peer')
+            ss.eof = True
+            return
+        if not self.pending:
+            return
+        limit = sum(len(c) for c in self.pending)
+        if f.get('type') == 'eof':
+            limit = min(limit, f['off'] - self.fed)
+        if self.mode == 'reply':
+            chunk = self.pending.pop(0)[:limit]
         else:
             flat = b''.join(self.pending)
-            n = 1 if self.mode == 'byte' else self.rnd.randint(1, len(flat))
-            ss.feed(flat[:n])
+            if self.mode == 'whole':
+                n = len(flat)
+            elif self.mode == 'byte':
+                n = 1
+            elif isinstance(self.mode, (list, tuple)):      # cuts at global offsets of the reply stream
+                nxt = [c for c in self.mode if c > self.fed]
+                n = (nxt[0] - self.fed) if nxt else len(flat)
+            else:
+                n = self.rnd.randint(1, len(flat))
+            n = min(n, limit)
+            chunk = flat[:n]
             self.pending = [flat[n:]] if flat[n:] else []
+        self.fed += len(chunk)
+        ss.feed(chunk)
 
 
 # ------------------------------------------------------------------ driving the real client
-def call(client, o):
+class FakeTlsContext(object):
+    """Stands in for the ssl context of starttls(): 'wraps' by handing the scripted socket back."""
+
+    def __init__(self):
+        self.wrapped = 0
+
+    def wrap_socket(self, sock, server_hostname=None, **kw):
+        self.wrapped += 1
+        return sock
+
+    def session_stats(self):
+        return {}
+
+
+def call(client, o, ctx=None):
     """Invoke the client method for op o. Returns list of (address|None, Reply)."""
     name = o['op']
+    arg = o.get('arg')
+    if name in ('ehlo', 'lhlo', 'helo') and o.get('bytes'):
+        arg = arg.encode('ascii')
     if name == 'banner':
         return [(None, client.get_banner())]
     if name == 'ehlo':
-        return [(None, client.ehlo(o['arg']))]
+        return [(None, client.ehlo(arg))]
     if name == 'lhlo':
-        return [(None, client.lhlo(o['arg']))]
+        return [(None, client.lhlo(arg))]
     if name == 'helo':
-        return [(None, client.helo(o['arg']))]
+        return [(None, client.helo(arg))]
+    if name == 'wrong_hello':        # the greeting of the other protocol: documented NotImplementedError
+        if isinstance(client, LmtpClient):
+            return [(None, (client.ehlo if len(arg) % 2 else client.helo)(arg))]
+        return [(None, client.lhlo(arg))]
     if name == 'mail':
         kw = {}
         if 'size' in o:
             kw['data_size'] = o['size']
         if 'auth' in o:
             kw['auth'] = o['auth']
-        return [(None, client.mailfrom(o['arg'], **kw))]
+        return [(None, client.mailfrom(arg, **kw))]
     if name == 'rcpt':
-        return [(None, client.rcptto(o['arg']))]
+        return [(None, client.rcptto(arg))]
     if name == 'data':
         return [(None, client.data())]
     if name == 'rset':
         return [(None, client.rset())]
     if name == 'quit':
         return [(None, client.quit())]
+    if name == 'starttls':
+        return [(None, client.starttls(ctx))]
+    if name == 'auth':
+        mech = o.get('mech')
+        return [(None, client.auth('user@x.test', 'secret', 'admin@x.test' if o.get('authz') else None,
+                                   mech.encode('ascii') if mech else None))]
+    if name == 'encrypt':            # a server that expects TLS at once (the relay's tls_immediately)
+        client.encrypt(ctx)
+        return []
+    if name == 'flush':              # what the library's own relay does after send_data()
+        client._flush_pipeline()
+        return []
     if name == 'get_reply':
+        if o.get('label'):
+            return [(None, client.get_reply(o['label'].encode('ascii')))]
         return [(None, client.get_reply())]
     if name == 'custom':
-        parts = o['arg'].encode('ascii').split(b' ', 1)
+        parts = arg.encode('ascii').split(b' ', 1)
         return [(None, client.custom_command(parts[0], parts[1] if len(parts) > 1 else None))]
     if name in ('send_data', 'send_empty_data'):
-        ret = client.send_empty_data() if name == 'send_empty_data' else client.send_data(*CONTENTS[o['arg']])
+        ret = client.send_empty_data() if name == 'send_empty_data' else client.send_data(*CONTENTS[arg])
         if isinstance(ret, list):
             return [(a, r) for a, r in ret]
         return [(None, ret)]
@@ -519,28 +893,66 @@ def run_once(case, plan, mode, rs, R):
     lmtp = case['lmtp']
     who = 'lmtp' if lmtp else 'smtp'
     entries = plan['entries']
+    fault = plan['fault']
+    ftype = fault.get('type')
     rnd = random.Random(rs)
     srv = ReplyServer(plan, mode, rnd)
     ss = ScriptSocket(on_recv=srv.on_recv, on_send=srv.on_send)
     client = (LmtpClient if lmtp else Client)(ss, ('peer.test', 25))
+    ctx = FakeTlsContext()
     out = []
     returned = []            # (op index, op name, expected k, address, Reply)
     aborted = None
     STALE = 'lmtp-stale-recipients-after-mail-without-rset'
     phantom = None           # (op index, op name) of a refused call that left a reply owed
+    bad_open = [e for e in entries if e.bad]     # malformed replies not yet reported by a BadReply
+    bad_raised = []          # (op index, entry) per BadReply that answered for a scripted malformed reply
+    lost_at = None           # op index of the first ConnectionLost after the scripted end of the stream
+    timed_out_at = None      # op index whose call was interrupted by the scripted Timeout
+    tls_expected = 0
+    after_lost = 0
 
     def viol(mech, what, **kw):
         kw.update({'mode': mode, 'rs': rs, 'commands_seen_by_server': list(srv.seen),
                    'sendall_batches': list(srv.batches)})
+        if ftype:
+            kw['fault'] = dict(fault)
         out.append((mech, what, kw))
 
     for i, o in enumerate(case['ops']):
         name = o['op']
+        if lost_at is not None and i < len(case['ops']) - 1 and \
+                (after_lost >= 2 or name not in ('rset', 'custom', 'quit', 'get_reply', 'flush')):
+            continue         # after the connection is gone: at most two clean-up calls and the final QUIT
+        if lost_at is not None:
+            after_lost += 1
         before = (len(client.reply_queue), client.io.send_buffer.getvalue(), len(ss.sent))
         try:
-            got = call(client, o)
+            try:
+                got = call(client, o, ctx)
+            except (BadReply, GTimeout) as ex:
+                # auth() drains the pipeline before it sends anything: when that drain meets the scripted fault
+                # the AUTH exchange has not begun, and the caller of this script simply calls auth() again
+                if name != 'auth' or i in plan['no_command'] or srv.units > before_units(plan, i):
+                    raise
+                if isinstance(ex, BadReply):
+                    cand = [e for e in bad_open if e.need <= srv.units and e.opi != i]
+                    if not cand:
+                        raise
+                    bad_open.remove(cand[0])
+                    bad_raised.append((i, cand[0]))
+                    R.hit('bad-reply-continued')
+                    R.count('bad-reply-%s-surfaced-in-auth-drain' % cand[0].op)
+                else:
+                    if srv.fired != 'timeout' or timed_out_at is not None:
+                        raise
+                    timed_out_at = i
+                    R.hit('timeout-continued')
+                got = call(client, o, ctx)
         except UnicodeEncodeError as ex:
-            if name not in ('mail', 'rcpt') or (o['arg'].isascii() and str(o.get('auth', '')).isascii()):
+            hello = name in ('ehlo', 'helo', 'lhlo')
+            if not hello and (name not in ('mail', 'rcpt') or
+                              (o['arg'].isascii() and str(o.get('auth', '')).isascii())):
                 raise
             if i not in plan['refused']:
                 aborted = (i, name, 'refused-although-encodable')
@@ -556,11 +968,21 @@ def run_once(case, plan, mode, rs, R):
             R.hit('unencodable-%s-refused' % plan['refused'][i])
             after = (len(client.reply_queue), client.io.send_buffer.getvalue(), len(ss.sent))
             if after[1:] != before[1:]:
-                viol('bytes-sent-for-refused-address/%s/%s' % (who, name),
+                viol('bytes-sent-for-refused-%s/%s/%s' % ('hello-name' if hello else 'address', who, name),
                      '%s(%r) raised but wrote %r' % (name, o['arg'], after[1][len(before[1]):] or ss.sent[-1]),
                      op_index=i)
             if after[0] != before[0] and phantom is None:
                 phantom = (i, name, plan['refused'][i])     # signature only; the verdict comes from what follows
+            continue
+        except NotImplementedError:
+            if name != 'wrong_hello':
+                raise
+            R.hit('other-protocol-greeting-refused')
+            after = (len(client.reply_queue), client.io.send_buffer.getvalue(), len(ss.sent))
+            if after != before:
+                viol('not-implemented-greeting-left-traces/%s' % who,
+                     'NotImplementedError but reply queue %d -> %d, wrote %r'
+                     % (before[0], after[0], after[1][len(before[1]):]), op_index=i)
             continue
         except WouldBlock:
             srv.release()
@@ -577,16 +999,108 @@ def run_once(case, plan, mode, rs, R):
                  op_index=i, unflushed=unflushed,
                  populated=[(n, r.code, r.message) for _, n, _, _, r in returned if r.code is not None])
             break
-        except (BadReply, ConnectionLost) as ex:
-            aborted = (i, name, type(ex).__name__)
-            viol('client-raises-%s/%s/%s' % (type(ex).__name__, who, name), 'client raised %r in %s' % (ex, name),
+        except GTimeout:
+            if srv.fired != 'timeout' or timed_out_at is not None:
+                raise
+            timed_out_at = i
+            R.hit('timeout-continued')
+            continue
+        except BadReply as ex:
+            # the scripted malformed reply that is next in the stream answers for this exception
+            cand = [e for e in bad_open if e.need <= srv.units]
+            if cand and MARK.findall((ex.data or b'').decode('latin-1')) and \
+                    int(MARK.findall(ex.data.decode('latin-1'))[0]) == cand[0].k:
+                bad_open.remove(cand[0])
+                bad_raised.append((i, cand[0]))
+                R.hit('bad-reply-continued')
+                R.count('bad-reply-%s-surfaced-in-%s' % (cand[0].op, name))
+                if name in ('ehlo', 'lhlo', 'helo') and cand[0].opi != i:
+                    # the greeting's own reply is still queued and its extensions will never be parsed: from
+                    # here on the script no longer knows what the client believes; what was returned so far
+                    # is judged, the run ends
+                    aborted = (i, name, 'greeting-interrupted')
+                    R.count('recorded/after-bad-reply/greeting-interrupted-run-ended')
+                    break
+                if lmtp and name == 'rset' and cand[0].opi != i:
+                    # LmtpClient.rset() forgets the recipients only after its drain returned: RSET is on the wire
+                    # but the client still lists them. Malformed replies are outside the statement; recorded
+                    aborted = (i, name, 'lmtp-rset-interrupted')
+                    R.count('recorded/after-bad-reply/lmtp-rset-interrupted-recipients-kept-run-ended')
+                    break
+                continue
+            aborted = (i, name, 'BadReply')
+            viol('%sclient-raises-BadReply/%s/%s' % ('after-connection-lost/' if srv.fired == 'eof' else '', who, name),
+                 'client raised %r in %s' % (ex, name), op_index=i)
+            break
+        except ConnectionLost as ex:
+            if srv.fired == 'eof':
+                if lost_at is None:
+                    lost_at = i
+                R.hit('connection-lost-continued')
+                continue
+            aborted = (i, name, 'ConnectionLost')
+            viol('client-raises-ConnectionLost/%s/%s' % (who, name), 'client raised %r in %s' % (ex, name),
                  op_index=i)
+            break
+        except Exception as ex:
+            if not (bad_raised or lost_at is not None or timed_out_at is not None):
+                raise
+            aborted = (i, name, type(ex).__name__)
+            viol('unclassified/%s-in-later-call/%s/%s' % (type(ex).__name__, who, name),
+                 '%s raised %r' % (name, ex), op_index=i)
+            break
+        if i in plan['refused'] and timed_out_at is not None:
+            R.count('recorded/after-timeout/extensions-of-interrupted-greeting-not-learnt')
+            return [], (i, name, 'unplanned-command')
+        if i in plan['refused'] and phantom is not None:
+            # knock-on of the phantom reply: a greeting after it was paired with the wrong reply, so the client
+            # never learnt what that greeting advertised
+            aborted = (i, name, 'unplanned-command')
+            viol('unplanned-command/%s/%s' % (who, name), '%s(%r) was sent although the script has SMTPUTF8 off'
+                 % (name, o['arg']), op_index=i)
             break
         if i in plan['refused']:
             # the client found a way to send the address without SMTPUTF8: outside what the script planned for
             R.inconclusive('non-ASCII address sent without SMTPUTF8 (script assumes refusal)')
             return [], (i, name, 'unplanned-command')
+        if i in plan['no_command']:
+            why = plan['no_command'][i]
+            after = (len(client.reply_queue), client.io.send_buffer.getvalue(), len(ss.sent))
+            if why == 'wrong_hello':
+                viol('other-protocol-greeting-not-refused/%s' % who, '%s returned %r' % (name, got), op_index=i)
+                aborted = (i, name, 'unplanned-command')
+                break
+            if why == 'auth-not-advertised':
+                wrote = b''.join(ss.sent[before[2]:]) + after[1]
+                if any(ln.upper().startswith(b'AUTH') for ln in wrote.split(b'\r\n')):
+                    if timed_out_at is not None:
+                        R.count('recorded/after-timeout/extensions-of-interrupted-greeting-not-learnt')
+                        return [], (i, name, 'unplanned-command')
+                    if phantom is not None:
+                        aborted = (i, name, 'unplanned-command')
+                        viol('unplanned-command/%s/auth' % who, 'AUTH sent although the script has it off',
+                             op_index=i)
+                        break
+                    R.inconclusive('AUTH sent although not advertised (script assumes no command)')
+                    return [], (i, name, 'unplanned-command')
+                R.hit('auth-not-advertised-no-command')
+                if got[0][1].code is None or got[0][1].code[0] not in '45':
+                    viol('auth-without-advertisement-reports-success/%s' % who, 'auth() returned %r' % got[0][1],
+                         op_index=i)
+                got = []
         ks = plan['per_op'][i]
+        if name == 'auth' and ks:
+            ks = ks[-1:]         # the challenges are consumed inside the call
+        if name == 'encrypt':
+            tls_expected += 1
+        if name == 'starttls':
+            tls_expected += 1 if entries[ks[0]].code == '220' else 0
+            R.hit('starttls-decision-compared')
+            if ctx.wrapped != tls_expected and timed_out_at is None:
+                viol('starttls-decision-differs-from-its-reply/%s' % who,
+                     'STARTTLS was answered %s, socket wrapped %d times, expected %d'
+                     % (entries[ks[0]].code, ctx.wrapped, tls_expected), op_index=i)
+                tls_expected = ctx.wrapped
         if lmtp and name in ('send_data', 'send_empty_data'):
             R.hit('lmtp-recipients-compared')
             want = [entries[k].addr for k in ks]
@@ -605,13 +1119,29 @@ def run_once(case, plan, mode, rs, R):
             returned.append((i, name, ks[j] if j < len(ks) else None, addr, r))
         # population rules
         unit_sync = not lmtp_or_smtp_pipelining(plan, i)
-        if name in SYNC_OPS or unit_sync:
-            missing = [(n, k) for _, n, k, _, r in returned if r.code is None]
+        if (name in SYNC_OPS or unit_sync) and timed_out_at is None and lost_at is None:
+            missing = [(n, k) for _, n, k, _, r in returned
+                       if r.code is None and not (k is not None and entries[k].bad)]
             if missing:
                 kind = ('unpopulated-after-synchronous-command' if name in SYNC_OPS
                         else 'not-populated-on-return-without-pipelining')
                 viol('%s/%s/%s' % (kind, who, name), '%s: after %s these replies are still empty: %r'
                      % (kind, name, missing), op_index=i)
+    if bad_raised and aborted is None and client.reply_queue and bad_raised[-1][0] == len(case['ops']) - 1:
+        # the last call reported the malformed answer to an earlier command: its own reply is still owed
+        try:
+            client._flush_pipeline()
+        except WouldBlock:
+            aborted = (len(case['ops']), 'flush', 'would-block')
+            viol('would-block-reads-past-last-owed-reply/%s/final-flush' % who,
+                 'flush after the last call blocks with %d replies queued' % (len(client.reply_queue) + 1))
+    # identity: one Reply object per command
+    seen_ids = {}
+    for i, name, k, addr, r in returned:
+        if id(r) in seen_ids and seen_ids[id(r)] != i:
+            viol('same-reply-object-returned-twice/%s/%s' % (who, name),
+                 'ops %d and %d returned the same Reply object' % (seen_ids[id(r)], i), op_index=i)
+        seen_ids[id(r)] = i
     # pairing: every populated reply (all of them after a complete run) must hold its own script entry
     for i, name, k, addr, r in returned:
         if r.code is None:
@@ -624,28 +1154,53 @@ def run_once(case, plan, mode, rs, R):
         R.hit('reply-paired')
         if e.addr is not None:
             R.hit('lmtp-data-replies-paired')
+        if name == 'auth':
+            R.hit('auth-exchange-paired')
+        elif name == 'starttls':
+            R.hit('starttls-paired')
         want_marks = [k] if (e.hello and e.code == '250') else [k] * e.nl
-        if set(marks) - {k} or (not marks and r.code != e.code):
+        if e.bad or set(marks) - {k} or (not marks and r.code != e.code):
             viol('mispaired/%s/%s' % (who, name),
-                 'reply object of %s (script entry %d, %s) holds %s %r' % (name, k, e.code, r.code, r.message),
+                 'reply object of %s (script entry %d, %s%s) holds %s %r'
+                 % (name, k, e.code, ', malformed' if e.bad else '', r.code, r.message),
                  op_index=i, expected_wire=e.wire, holds_entries=sorted(set(marks)))
-        elif r.code != e.code or marks != want_marks:
+            continue
+        R.hit('reply-text-compared')
+        if r.code != e.code or marks != want_marks or \
+                r.message not in (e.text, '%s.0.0 %s' % (e.code[0], e.text)):
             viol('reply-content-differs/%s/%s' % (who, name),
                  'reply object of %s holds %s %r, script sent %r' % (name, r.code, r.message, e.wire),
                  op_index=i, expected_wire=e.wire)
         elif e.addr is not None and addr != e.addr:
             viol('lmtp-data-reply-for-other-recipient/%s' % name,
                  'end-of-data reply naming %s returned for %s' % (e.addr, addr), op_index=i)
+        R.hit('command-attribute-compared')
+        if r.command != e.cmd:
+            viol('reply-command-attribute-differs/%s/%s' % (who, name),
+                 'the Reply returned by %s says command=%r, expected %r' % (name, r.command, e.cmd), op_index=i)
+    if lost_at is not None:
+        # every reply the server delivered completely before it went away was read in order by the call that
+        # then raised: its object must hold it (checked above); none may be left empty
+        for i, name, k, addr, r in returned:
+            if k is not None and r.code is None and entries[k].end <= fault['off'] and \
+                    entries[k].need <= srv.fired_units and i <= lost_at:
+                viol('delivered-reply-not-populated-before-connection-lost/%s/%s' % (who, name),
+                     'script entry %d ended at offset %d, connection ended at %d' % (k, entries[k].end, fault['off']),
+                     op_index=i)
     if srv.sync_checked:
         R.hit('lockstep-checked', srv.sync_checked)
-    for unit, verb in srv.early[:1]:
-        kind = 'content-sent-before-data-reply-read' if unit in plan['content_units'] \
-            else 'command-sent-before-previous-reply-read-without-pipelining'
-        viol('%s/%s/%s' % (kind, who, verb.decode('latin-1')), '%s: unit %d (%r) arrived with %d bytes handed out, '
-             '%d owed before it' % (kind, unit, verb, ss.consumed, srv.need_before(unit)))
+    if timed_out_at is None and lost_at is None and not bad_raised:
+        # (after a failed call replies are still owed while the next command goes out: nothing to judge)
+        for unit, verb in srv.early[:1]:
+            kind = 'content-sent-before-data-reply-read' if unit in plan['content_units'] \
+                else 'command-sent-before-previous-reply-read-without-pipelining'
+            viol('%s/%s/%s' % (kind, who, verb.decode('latin-1')), '%s: unit %d (%r) arrived with %d bytes handed '
+                 'out, %d owed before it' % (kind, unit, verb, ss.consumed, srv.need_before(unit)))
     if any(b > 1 for b in srv.batches):
         R.hit('pipelined-batch')
-    if aborted is None:
+    if isinstance(mode, (list, tuple)):
+        R.hit('cut-delivery')
+    if aborted is None and lost_at is None:
         srv.release()
         left = client.io.recv_buffer + ss.unread() + b''.join(srv.pending)
         R.hit('tail-compared')
@@ -664,17 +1219,19 @@ def run_once(case, plan, mode, rs, R):
             viol('reply-queue-not-drained/%s' % who, '%d reply objects still queued at the end'
                  % len(client.reply_queue))
         plan_seen = [plan['verbs'].get(u + 1, b'<content>') for u in range(srv.units)]
-        if srv.seen != plan_seen and phantom is None and not out:
+        if (len(srv.seen) != len(plan_seen) or any(p is not None and p != q for p, q in zip(plan_seen, srv.seen))) \
+                and phantom is None and not out:
             R.inconclusive('command stream differs from plan')
+    aligned = lost_at is None and timed_out_at is None     # else: units after the fault are not the plan's
     for unit, raw in plan['utf8_units'].items():
-        if unit in srv.lines:
+        if unit in srv.lines and (aligned or unit <= srv.fired_units):
             if b'<' + raw + b'>' in srv.lines[unit]:
                 R.hit('utf8-address-sent-as-utf8')
             else:
                 viol('utf8-address-not-sent-as-utf8/%s/%s' % (who, srv.seen[unit - 1].decode('latin-1')),
                      'command %r does not carry %r' % (srv.lines[unit], raw))
     for unit, want in plan['mail_units'].items():
-        if unit not in srv.lines:
+        if unit not in srv.lines or not (aligned or unit <= srv.fired_units):
             continue
         line = srv.lines[unit]
         got = dict((t.split(b'=', 1) + [b''])[:2] for t in line.split(b'>', 1)[-1].split())
@@ -709,14 +1266,49 @@ def run_once(case, plan, mode, rs, R):
             if phantom[2] == 'address':
                 mech = 'phantom-owed-reply-after-unencodable-address/%s/%s' \
                     % (who, {'mail': 'mailfrom', 'rcpt': 'rcptto'}[phantom[1]])
+            elif phantom[2] == 'hello-name':
+                mech = 'phantom-owed-reply-after-unencodable-hello-name/%s/%s' % (who, phantom[1])
             else:
                 mech = 'phantom-owed-reply-after-unencodable-mail-parameter/%s' % who
                 kw['refused_auth'] = case['ops'][phantom[0]].get('auth')
             out.append((mech, '%s(%r%s) raised UnicodeEncodeError but left a reply owed; then: %s'
                         % (phantom[1], case['ops'][phantom[0]]['arg'],
                            ', auth=%r' % kw['refused_auth'] if 'refused_auth' in kw else '', what), kw))
+    # faults: what is seen after a scripted fault is attributed to the handling of that fault
+    def own_name(m):             # root causes that have nothing to do with the fault keep their name
+        return m == STALE or m.startswith('phantom-owed-reply')
+
+    if timed_out_at is not None:
+        # the statement does not say what a client owes after the caller abandoned a read: the pairing seen
+        # afterwards is recorded; only reading past what is owed is judged
+        kept = []
+        for mech, what, kw in out:
+            if mech.startswith('would-block'):
+                kept.append(('after-timeout/' + mech, what, kw))
+            else:
+                R.count('recorded/after-timeout/' + mech.split('/')[0 if not mech.startswith('unclassified') else 1])
+        if len(kept) == len(out):
+            R.count('recorded/after-timeout/pairing-intact')
+        out = kept
+    elif bad_raised:
+        first = bad_raised[0][0]
+        stale_at = [i for i, _ in bad_raised if i in plan['stale_ops']]
+        if stale_at:
+            # the BadReply cut short a send_*data() whose recipient list would have shown the known stale-recipient
+            # disagreement: what follows is that finding's knock-on
+            out = [(STALE if kw.get('op_index', len(case['ops'])) >= stale_at[0] else m, w, kw) for m, w, kw in out]
+        out = [(('after-bad-reply/' + m) if kw.get('op_index', len(case['ops'])) >= first and not own_name(m)
+                else m, w, kw) for m, w, kw in out]
+    elif lost_at is not None:
+        out = [(('after-connection-lost/' + m) if kw.get('op_index', len(case['ops'])) >= lost_at and not own_name(m)
+                else m, w, kw) for m, w, kw in out]
     R.observe('flush-shape', tuple(srv.batches))
     return out, aborted
+
+
+def before_units(plan, i):
+    """Command units the script expects on the wire before op i puts its own there."""
+    return max([u for u in plan['op_unit'][:i] if u is not None] or [0])
 
 
 def lmtp_or_smtp_pipelining(plan, i):
@@ -726,10 +1318,13 @@ def lmtp_or_smtp_pipelining(plan, i):
 
 
 def script_shape(case, plan):
+    f = case.get('fault') or {}
     return tuple((o['op'], o['code'][0], o['nl'], plan['refused'].get(i), plan['op_unit'][i] in plan['utf8_units'],
-                  tuple(sorted(plan['mail_units'].get(plan['op_unit'][i], ()))))
+                  tuple(sorted(plan['mail_units'].get(plan['op_unit'][i], ()))), o.get('mech'), o.get('chal'),
+                  bool(o.get('bytes')), plan['no_command'].get(i))
                  for i, o in enumerate(case['ops'])) + \
-        (case['lmtp'], tuple((bool(o.get('adv')), bool(o.get('utf8'))) for o in case['ops'] if 'adv' in o))
+        (case['lmtp'], tuple((bool(o.get('adv')), bool(o.get('utf8'))) for o in case['ops'] if 'adv' in o),
+         f.get('type'), f.get('op'), f.get('form'))
 
 
 def is_nontrivial(case, plan):
@@ -749,7 +1344,7 @@ def run_case(case, R):
         R.count('scripts-with-' + f)
     rnd = random.Random(case['rs'])
     ok = True
-    for mode in MODES:
+    for mode in case.get('modes') or MODES:
         rs = rnd.randrange(1 << 30)
         R.eval()
         viols, aborted = run_once(case, plan, mode, rs, R)
